@@ -216,6 +216,38 @@ func (t *termer) term(v ssa.Value, ctx *Ctx) *Term {
 	case *ssa.Lookup:
 		return mk("lookup", "", v, ctx, t.term(x.X, ctx), t.term(x.Index, ctx))
 	case *ssa.Slice:
+		// the slice built for a variadic call: render its elements
+		if al, ok := x.X.(*ssa.Alloc); ok && al.Comment == "varargs" && x.Low == nil && x.High == nil {
+			elems := map[int]ssa.Value{}
+			max := -1
+			okAll := true
+			for _, r := range *al.Referrers() {
+				ia, isIA := r.(*ssa.IndexAddr)
+				if !isIA {
+					continue
+				}
+				k, isK := ia.Index.(*ssa.Const)
+				if !isK {
+					okAll = false
+					continue
+				}
+				for _, rr := range *ia.Referrers() {
+					if st, isS := rr.(*ssa.Store); isS && st.Addr == ssa.Value(ia) {
+						elems[int(k.Int64())] = st.Val
+						if int(k.Int64()) > max {
+							max = int(k.Int64())
+						}
+					}
+				}
+			}
+			if okAll && max >= 0 && len(elems) == max+1 {
+				var as []*Term
+				for i := 0; i <= max; i++ {
+					as = append(as, t.term(elems[i], ctx))
+				}
+				return mk("list", "", v, ctx, as...)
+			}
+		}
 		args := []*Term{t.term(x.X, ctx)}
 		for _, b := range []ssa.Value{x.Low, x.High, x.Max} {
 			if b == nil {
@@ -484,6 +516,12 @@ func (t *Term) String() string {
 		return t.Args[0].String() + "[" + t.Args[1].String() + "]"
 	case "slice":
 		return t.Args[0].String() + "[" + t.Args[1].String() + ":" + t.Args[2].String() + "]"
+	case "list":
+		var a []string
+		for _, x := range t.Args {
+			a = append(a, x.String())
+		}
+		return "[" + strings.Join(a, ", ") + "]"
 	case "closure":
 		return "closure(" + t.Name + ")"
 	case "make":
